@@ -12,6 +12,11 @@ NOTE = ("Trusted base: go/packages + go/types + go/ssa of golang.org/x/tools v0.
 
 # id -> (technique, text)
 CLAIMED = {
+ 'C19': ("static analysis: exactly-once path rules (PASS), CAS-guard facts, ownership of the callback/response call sites, error-flow (latch) rule over go/ssa",
+         "Decides the skeleton that exactly-once completion with error propagation rests on, for every stage tree and completion order at once: pending++ before execution and before the parent's "
+         "(non-deferred) completion; exactly one of complete/error handler per stage path, the pooled task's panic handler being the error handler and the pool's recover block calling it; "
+         "callback and leaf response reachable only through one CAS-guarded function each, whose winner always responds once; pending changed once per execute/complete; every non-nil stage "
+         "error latched under the mutex before the decrement and the callback argument read from the latch after the counter hit zero. It does not execute pipelines; the pool dropping a task on a cancelled context is listed as an observation."),
  'C06': ("static analysis: ownership closure of position stores, must-fact dataflow with a phi-aware prover (GUARD), lock-hold dataflow, loop-invariant check of the minimum in Sync",
          "Closes, by whole-program ownership, the set of sites that store a group's consumed/ack or the queue ack, and decides for each site the guard or pairing that preserves "
          "ack <= consumed <= appended and queue-ack <= min(group acks): comparison facts that hold on every path to the store inside one lock hold; resets that write all positions "
